@@ -28,7 +28,7 @@ func init() {
 		ID:    "C20",
 		Level: "model_checking",
 		Rule: "product per transaction type of per-field domains (strings: empty, valid, malformed, case variants, U+017F, invalid UTF-8, 10 kB; bytes: absent, empty, 31, zero32, nonzero32, 33, 10 kB; amounts: absent, -1, 0, 1, 2^256-1; integers: 0, 1, max), " +
-			"each message built as wire bytes and decoded by the generated Unmarshal, in 5 states (populated, both paused, default genesis, threshold near 2^32/65, malformed-but-accepted attester strings); all 19 queries with nil request and nil/contradictory/extreme pagination; " +
+			"each message built as wire bytes and decoded by the generated Unmarshal, in 6 states (populated, both paused, default genesis, threshold near 2^32/65, malformed-but-accepted attester strings, negative stored burn limit); all 19 queries with nil request and nil/contradictory/extreme pagination; " +
 			"both message decoders and the verifier over all lengths 0..300; the CLI address parser over all strings of length <=3 over {0,x,1,z,O,U+017F}, a multi-byte character at every byte offset 0..24 of a base58 string, and long inputs; every call under recover(); " +
 			"distinct_nontrivial = distinct (entry point, field-shape vector) classes",
 		Assumptions: []string{"a panic fingerprint is entry point + innermost repository frame (function), not the line"},
@@ -156,7 +156,7 @@ func product(doms [][]dom, f func(names []string, fields []pbField)) {
 	}
 }
 
-var c20States = []string{"populated", "paused", "default-genesis", "huge-threshold", "odd-attesters"}
+var c20States = []string{"populated", "paused", "default-genesis", "huge-threshold", "odd-attesters", "negative-burn-limit"}
 
 func c20Jobs(tier string) []Job {
 	var jobs []Job
@@ -184,6 +184,9 @@ func c20Scenario(state string) (Scenario, []Action) {
 	case "paused":
 		pre = append(pre, Act("pauseBurningAndMinting by A2", &cctptypes.MsgPauseBurningAndMinting{From: Pauser.Str}),
 			Act("pauseSendingAndReceiving by A2", &cctptypes.MsgPauseSendingAndReceivingMessages{From: Pauser.Str}))
+	case "negative-burn-limit":
+		// the limit setter accepts any integer: a stored negative limit is reachable by one transaction
+		pre = append(pre, Act("setMaxBurnAmountPerMessage(uusdc,-1) by A3", &cctptypes.MsgSetMaxBurnAmountPerMessage{From: TokenCtl.Str, LocalToken: "uusdc", Amount: math.NewInt(-1)}))
 	case "default-genesis":
 		g = *cctptypes.DefaultGenesis()
 		g.Owner, g.AttesterManager, g.Pauser, g.TokenController = Owner.Str, AttMgr.Str, Pauser.Str, TokenCtl.Str
